@@ -69,14 +69,17 @@ F_AvgMatrix(Ts, Vs, metric, res) ==
 \* tips reachable from tip a through branches shorter than thr
 CompOf(V, thr, a) == {b \in V.tips : \A n \in PathNodes(V, a, b) : Num(BrOf(V, n).len) < thr}
 
+\* (a root with a single neighbour is a tip too for gotree: a tree hanging from a named tip)
+TipsG(V) == V.tips \cup (IF V.deg[V.root] = 1 THEN {V.root} ELSE {})
+CompOfG(V, thr, a) == {b \in TipsG(V) : \A n \in PathNodes(V, a, b) : Num(BrOf(V, n).len) < thr}
 F_TipBags(V, thr, bags) ==
   LET got == {SeqRange(bags[i]) : i \in 1..Len(bags)}
-      exp == {{V.nm[b] : b \in CompOf(V, thr, a)} : a \in V.tips}
+      exp == {{V.nm[b] : b \in CompOfG(V, thr, a)} : a \in TipsG(V)}
   IN  Fail("BagsPartitionTheTips",
            /\ \A i \in 1..Len(bags) : NoDupSeq(bags[i]) /\ bags[i] # <<>>
            /\ Cardinality(got) = Len(bags)
-           /\ SumOver(1..Len(bags), LAMBDA i : Len(bags[i])) = Cardinality(V.tips)
-           /\ UNION got = V.names)
+           /\ SumOver(1..Len(bags), LAMBDA i : Len(bags[i])) = Cardinality(TipsG(V))
+           /\ UNION got = {V.nm[t] : t \in TipsG(V)})
       \cup Fail("BagsAreLengthComponents", got = exp)
 
 -----------------------------------------------------------------------------
